@@ -33,7 +33,7 @@ Print Assumptions c07_parse_render_partial.
 
 (** every well-formed tree (no array subscripts), rendered with minimal parentheses *)
 Theorem c07_parse_render_min : forall e, wf e ->
-  parse_full (list tok) tok_lexer arith_table (render_at 0 e) = PMatch e [].
+  parse_full (list tok) tok_lexer arith_table false (render_at 0 e) = PMatch e [].
 Proof. exact tparse_render_min. Qed.
 Print Assumptions c07_parse_render_min.
 
@@ -47,7 +47,7 @@ Print Assumptions c07_follow_needed.
 (** non-vacuity, and the character-level statement on a tree containing every operator *)
 Theorem c07_parse_render_instance :
   wf ex_all_ops /\ roundtrip_check ex_all_ops = true /\
-  parse_full (list tok) tok_lexer arith_table (render_at 0 ex_all_ops) = PMatch ex_all_ops [].
+  parse_full (list tok) tok_lexer arith_table false (render_at 0 ex_all_ops) = PMatch ex_all_ops [].
 Proof. exact parse_render_instance. Qed.
 Print Assumptions c07_parse_render_instance.
 
